@@ -908,6 +908,10 @@ def run(prog, rep, tier):
     rep.floor('TDVP-half-steps', 6)
     rep.assumptions += ['method resolution follows a statically computed C3 MRO',
                         'convergence order and norm/energy conservation are NOT decided']
+    from ..flow import check_dead_computations
+    rep.rule('VALUE-dead', 'no result of a call is bound to a local that is never read (reaching '
+             'definitions)')
+    check_dead_computations(prog, rep, ['tenpy/algorithms/tebd.py', 'tenpy/algorithms/tdvp.py', 'tenpy/algorithms/mpo_evolution.py', 'tenpy/algorithms/algorithm.py'])
     return rep.finish(
         level='other',
         explanation='Accounting clauses of C14 decided statically: class-by-class count of '
